@@ -12,6 +12,7 @@ Byte strings are tokens (`[id]`); the library functions are tables carried by th
   round 2: entry may carry two more fields `.<hexlink>.<hextartarget>`; pkg a fourth field `.<hex checksum string>`
   (default: the `exp` text); op a fourth field `@f` (fresh process, default) or `@s` (same process as the previous op)
   round 5: pkg a fifth field `.<fetched>/<fetched>…`: the answers to the later GETs of the URL within the operation
+  (`-` refused, `~` a body that does not split into members)
 Requests: `auth.verdict H C D OPS k`  → Impl verdict of op k, Spec verdict, class
           `auth.installed H C D OPS k` → control checksums that a successful build records (Impl) / the expected ones (Spec)
           `auth.files   H C D OPS k`  → `<hexname>=<body token>` of every regular file the build lays out: what it serves
@@ -83,7 +84,9 @@ def parsePkg (s : String) : Option PkgReq :=
   | [k, e, f, r] => some { key := unhexS k, expected := parseWant e, fetched := if f = "-" then none else parseApk f,
                            raw := unhexS r }
   | [k, e, f, r, l] => some { key := unhexS k, expected := parseWant e, fetched := if f = "-" then none else parseApk f,
-                              raw := unhexS r, later := (splitNE l "/").map fun x => if x = "-" then none else parseApk x }
+                              raw := unhexS r, later := (splitNE l "/").map fun x => if x = "-" then Resp.refused else match parseApk x with
+                                | some a => Resp.apk a
+                                | none => Resp.broken }
   | _ => none
 
 def parseOp (s : String) : Option Op :=
